@@ -66,6 +66,7 @@ var vfTagOps = []vfTagOp{
 	{Name: "new account with a reserved-namespace tag", Kind: "newacc", Tags: []string{"chess", "email:mallory@example.com"}},
 	{Name: "new group with untidy plain tags", Kind: "newgrp", Sess: "s1", Tags: []string{" Club ", "CLUB", "-bad", "travel"}},
 	{Name: "new group with a reserved-namespace tag", Kind: "newgrp", Sess: "s1", Tags: []string{"club", "basic:alice"}},
+	{Name: "alice deletes her validated e-mail credential", Kind: "delcred", Sess: "s1"},
 	{Name: "bob is suspended", Kind: "state", Q: "bob"},
 	{Name: "the second group is deleted", Kind: "state", Q: "grp2"},
 }
@@ -97,6 +98,12 @@ func vfTagSetup() *vfTagWorld {
 		if err := store.Users.Update(u.uid, map[string]any{"Tags": types.StringSlice(tags[n])}); err != nil {
 			vsched.Fail("harness", "tags: "+err.Error())
 		}
+	}
+	// the e-mail tag of alice stands for a validated credential (validator configured with add_to_tags)
+	globals.validators = map[string]credValidator{"email": {addToTags: true}}
+	vsched.OnKill(func() { globals.validators = nil })
+	if _, err := store.Users.UpsertCred(&types.Credential{User: x.users["alice"].uid.String(), Method: "email", Value: "alice@example.com", Done: true}); err != nil {
+		vsched.Fail("harness", "cred: "+err.Error())
 	}
 	mkgrp := func(owner string, tg []string) string {
 		c := w.vfConnect("mk" + owner)
@@ -273,6 +280,23 @@ func vfTagExec(hist []int, last bool) vfXResult {
 				}
 			}
 			*cur = now
+		case "delcred":
+			// deleting the credential takes its tag away, in the store and in the loaded 'me' topic alike
+			code, frames = c.Req(`{"del":{"id":"$ID","topic":"me","what":"cred","cred":{"meth":"email","val":"alice@example.com"}}}`)
+			me, _ := stored()
+			for _, tg := range me {
+				if tg == "email:alice@example.com" && code < 300 {
+					bad("C19:credential-tag-survives-deletion", fmt.Sprintf("the credential was deleted (answer %d), the stored tags are still %v", code, me))
+				}
+			}
+			if t := vfTopic(alice.uid.UserId()); t != nil {
+				cached := append([]string(nil), t.tags...)
+				sort.Strings(cached)
+				if fmt.Sprint(cached) != fmt.Sprint(me) {
+					bad("C19:cached-tags-differ-from-store:delcred", fmt.Sprintf("topic holds %v, store %v", cached, me))
+				}
+			}
+			m.Me = me
 		case "newacc", "newgrp":
 			tj, _ := json.Marshal(op.Tags)
 			want, _ := vfRefNormalize(op.Tags, defaultMaxTagCount)
